@@ -208,6 +208,18 @@ func (e *Env) resolveType(x ast.Expr) *SType {
 	return nil
 }
 
+// resolveGoType: like resolveType, but map[K]V denotes the Go map type (in ghost declarations it is a logical map).
+func (e *Env) resolveGoType(x ast.Expr) *SType {
+	if mt, ok := x.(*ast.MapType); ok {
+		k, v := e.resolveGoType(mt.Key), e.resolveGoType(mt.Value)
+		if k.Go == nil || v.Go == nil {
+			e.fail(x, "map of logical types")
+		}
+		return goSType(types.NewMap(k.Go, v.Go))
+	}
+	return e.resolveType(x)
+}
+
 // tryType resolves an expression as a type name if it denotes one (never a spec function or variable).
 func (e *Env) tryType(x ast.Expr) (*SType, bool) {
 	switch t := x.(type) {
@@ -1019,7 +1031,7 @@ func (e *Env) trCall(x *ast.CallExpr) TV {
 		return TV{T: app("pl", v.T), S: &SType{Sort: "Int"}}
 	case "typeIs":
 		v := e.tr(arg(0))
-		t := e.resolveType(arg(1))
+		t := e.resolveGoType(arg(1))
 		return TV{T: and(not(eq(v.T, "iface_nil")), eq(app("dyn", v.T), intLit(int64(vc.typeID(t.Go))))), S: stBool}
 	case "typeid":
 		t := e.resolveType(arg(0))
@@ -1038,7 +1050,7 @@ func (e *Env) trCall(x *ast.CallExpr) TV {
 	case "asType":
 		// asType(x, T): x.(T) assuming it succeeds
 		v := e.tr(arg(0))
-		t := e.resolveType(arg(1))
+		t := e.resolveGoType(arg(1))
 		if _, isI := t.Go.Underlying().(*types.Interface); isI {
 			return TV{T: v.T, S: t}
 		}
@@ -1263,7 +1275,6 @@ func (e *Env) tryPureMethod(sel *ast.SelectorExpr, call *ast.CallExpr) (TV, bool
 	}
 	// pure without defining equation: uninterpreted function of receiver and arguments
 	res := goSType(sig.Results().At(0).Type())
-	fn := "pm_" + sanitize(shortKey(key))
 	sorts := []Sort{recv.S.Sort}
 	ts := []Term{recv.T}
 	for i := range call.Args {
@@ -1271,8 +1282,68 @@ func (e *Env) tryPureMethod(sel *ast.SelectorExpr, call *ast.CallExpr) (TV, bool
 		sorts = append(sorts, v.S.Sort)
 		ts = append(ts, v.T)
 	}
-	vc.d.declFun(fn, sorts, res.Sort)
+	fn := vc.pmFun(key, sorts, res.Sort)
 	return TV{T: app(fn, ts...), S: res}, true
+}
+
+// pmFun declares the uninterpreted function standing for a pure interface method. Implementations that are verified
+// to return a constant (pure + implements + "ensures result == <constant>") contribute one axiom each: for receivers of
+// that dynamic type the method's value is the constant.
+func (vc *VC) pmFun(key string, sorts []Sort, res Sort) string {
+	fn := "pm_" + sanitize(shortKey(key))
+	if vc.d.seen["decl_"+fn] {
+		return fn
+	}
+	vc.d.seen["decl_"+fn] = true
+	vc.d.declFun(fn, sorts, res)
+	if len(sorts) != 1 || sorts[0] != "Iface" {
+		return fn
+	}
+	if vc.w.fnCache == nil {
+		vc.w.fnCache = vc.w.repoFunctions()
+	}
+	for _, k := range sortedKeys(vc.specs.Contracts) {
+		c := vc.specs.Contracts[k]
+		if c.IsMethod || !c.Pure || c.Implement == "" {
+			continue
+		}
+		i := strings.LastIndex(k, ".")
+		if i < 0 || "("+qualifyTypeName(c.Implement, c.Pkg, vc.w)+")"+k[i:] != key {
+			continue
+		}
+		f := vc.w.fnCache[k]
+		if f == nil || f.Signature.Recv() == nil {
+			continue
+		}
+		for _, cl := range c.Ensures {
+			be, ok := cl.Expr.(*ast.BinaryExpr)
+			if !ok || be.Op != token.EQL {
+				continue
+			}
+			if rid, ok := be.X.(*ast.Ident); !ok || (rid.Name != "result" && rid.Name != "result0") {
+				continue
+			}
+			var val Term
+			func() {
+				defer func() {
+					if r := recover(); r != nil {
+						if _, ok := r.(specError); !ok {
+							panic(r)
+						}
+					}
+				}()
+				ce := &Env{vc: vc, pkg: c.Pkg, vars: map[string]TV{}, heap: newHeap(), old: newHeap()}
+				val = ce.tr(be.Y).T
+			}()
+			if val == "" {
+				continue
+			}
+			tid := vc.typeID(f.Signature.Recv().Type())
+			vc.d.axiom(fmt.Sprintf("(forall ((x Iface)) (! (=> (and (not (= x iface_nil)) (= (dyn x) %d)) (= (%s x) %s)) :pattern ((%s x))))", tid, fn, val, fn))
+			vc.usedTrusted["pure-definition "+shortFuncKey(k)+" (proved on its body)"] = true
+		}
+	}
+	return fn
 }
 
 func lookupMethodAnyPkg(t types.Type, name string) types.Object {
